@@ -7,7 +7,7 @@ CONSTANTS
   PathAttrs <- PathNone
   Kinds <- KSet
   Codes <- CodesBody
-  Locs <- LocsHosts
+  Locs <- LocsX
   Methods <- MAll
   Schemes <- SHttp
   Reads <- RBoth
